@@ -19,7 +19,9 @@ RULE = ("Hypothesis draws, per polynomial family, an ascending order list (conti
         "length / other coordinates / other shape parameters.  For the two-index families an arbitrary list of valid (n,m) "
         "pairs in any order with repeated |m| and repeated pairs, given as list of tuples / lists, tuple of tuples or "
         "(k,2) ndarray.  Coordinates are expanded from a drawn integer inside the family's domain (end points included; "
-        "complex: imaginary part in [-0.3,0.3], zero for some entries).  Oracle "
+        "complex: imaginary part in [-0.3,0.3], zero for some entries) or, one case in four, beyond the interval of orthogonality, where the "
+        "single-order evaluators are still the polynomial (|x| <= 1.5 for Jacobi / Legendre / Chebyshev, u <= 1.5 for Qbfs / Qcon, r <= 1.5 - the corners "
+        "of a square grid - for Zernike / Q2d, x >= -2 for Laguerre, |x| <= 4 for Dickson).  Oracle "
         "(differential, as the property states): seq(ns, x)[k] against scalar(ns[k], x) for every k - per mode, "
         "|diff| <= 1e-11 max(max|mode at x|, max|mode| on a fixed grid of the domain - used when fewer than 8 points are given) "
         "in double precision (same recurrence; observed 0 "
@@ -31,7 +33,7 @@ RULE = ("Hypothesis draws, per polynomial family, an ascending order list (conti
         "changed; then the kept result is overwritten in place and the routine called again with the original arguments - "
         "it must return the same modes.  Non-trivial = gapped "
         "list, or list not starting at 0/1, or x.ndim != 1, or a dimension of x equal to len(ns), or dtype not float64, or "
-        "non-C layout, or a history (two-index: list "
+        "non-C layout, or a history, or coordinates beyond the orthogonality interval (two-index: list "
         "not sorted or |m| repeated, or ndim != 1, or such a dimension, or dtype / layout / history as above).  Distinct = distinct canonical JSON.")
 ASSUMPTIONS = ["order lists are non-empty, strictly ascending (one-index families) as documented; coordinates are numpy "
                "arrays or numpy scalars (0-D included) of floating or complex dtype; integer dtype only where the "
@@ -95,6 +97,26 @@ GROUPS = {
     'dickson': ['dickson1', 'dickson2'],
     'qbfs_qcon': ['Qbfs', 'Qcon'],
 }
+
+# Coordinates beyond the interval the family is orthogonal on.  Every evaluator is a recurrence in the coordinate, i.e. the polynomial
+# itself, and is used that way: a grid normalised by the aperture radius reaches r = sqrt(2) in its corners, a guard band around a
+# clear aperture gives |x| > 1, a Laguerre argument may be negative.  (Hermite: the whole real line is the domain; the range is
+# limited by overflow instead.  Integer coordinates keep the measured range.)
+SPANS = ['domain', 'domain', 'domain', 'beyond']
+RADIUS_BEYOND = 1.5
+
+
+def _span(fam, lo, hi, span, dtype):
+    if span != 'beyond' or dtype.startswith('int') or fam.startswith('hermite'):
+        return lo, hi
+    if fam.startswith('laguerre'):
+        return -2.0, hi
+    if fam.startswith('dickson'):
+        return -4.0, 4.0
+    if fam in ('Qbfs', 'Qcon'):
+        return 0.0, RADIUS_BEYOND
+    return -1.5, 1.5
+
 
 # shape parameters: Jacobi alpha,beta > -1 incl. the Chebyshev half-integer pairs, a+b in {0,-1} (special-cased in the
 # recurrence); Laguerre alpha > -1; Dickson alpha small real
@@ -312,7 +334,7 @@ def strat_one_index(group):
                 'params': _param_strategy(fam, dtype), 'shape': st.just(sh), 'dtype': st.just(dtype),
                 'layout': U.layouts, 'x0d': st.sampled_from(['array', 'npscalar'] + (['pyfloat'] if fam in PYFLOAT_FAMILIES else [])),
                 'ns_as': st.sampled_from(ORDERS_AS),
-                'xkw': st.booleans(), 'history': st.sampled_from(HISTORY), 'seed': U.seeds}))
+                'xkw': st.booleans(), 'history': st.sampled_from(HISTORY), 'seed': U.seeds, 'span': st.sampled_from(SPANS)}))
         return st.sampled_from(GROUPS[group]).flatmap(lambda fam: st.tuples(st.just(fam), _dtype_strategy(fam))).flatmap(rest)
     return build
 
@@ -326,14 +348,18 @@ def check_one_index(case, ctx):
     shape = resolve_shape(case['shape'], k)
     layout, x0d, ns_as = case.get('layout', 'C'), case.get('x0d', 'array'), case.get('ns_as', 'list')
     history, xkw = case.get('history', 'none'), bool(case.get('xkw', False))
+    lo, hi = _span(fam, lo, hi, case.get('span', 'domain'), dtype)
+    span = 'beyond' if (lo, hi) != _families()[fam][3:] else 'domain'
     x = present(coords(case['seed'], shape, lo, hi, dtype), layout, x0d)
     scls, lcls = _shape_class(shape, k), _list_class(ns)
     gapped = ns != list(range(ns[0], ns[0] + k))
     ctx.nt(gapped or ns[0] > 1 or len(shape) != 1 or k in shape or dtype != 'float64' or history != 'none'
-           or (layout != 'C' and len(shape) > 0))
+           or (layout != 'C' and len(shape) > 0) or span != 'domain')
     ctx.label(fam, scls, lcls, dtype, 'maxn>=50' if ns[-1] >= 50 else ('maxn>=20' if ns[-1] >= 20 else 'maxn<20'),
               'layout:' + (layout if shape else x0d), 'ns_as:' + ns_as, 'history:' + history, 'x-keyword' if xkw else 'x-positional',
-              'big' if int(np.prod(shape)) > 2 ** 16 else 'small')
+              'big' if int(np.prod(shape)) > 2 ** 16 else 'small', 'span:' + span)
+    bsuf = '' if span == 'domain' else ':beyond-orthogonality-interval'
+    scls += bsuf
 
     def run(orders, pars, xx):
         if xkw:
@@ -381,10 +407,10 @@ def check_one_index(case, ctx):
         ref = _guard(ctx, 'ref', scalar, n, *params, xref) if want.size < 8 else want
         _cmp(kept[i], want, ref, dtype, '%s_seq:%s:%s' % (fam, scls, ncls),
              '%s_seq(%r, %r)[%d] vs %s(%d) on x.shape=%s %s %s' % (fam, ns, params, i, fam, n, shape, dtype, layout))
-        _cmp(out3[i], want, ref, dtype, '%s_seq:aliased-state:%s' % (fam, ncls),
+        _cmp(out3[i], want, ref, dtype, '%s_seq:aliased-state:%s%s' % (fam, ncls, bsuf),
              '%s_seq(%r, %r)[%d] vs %s(%d), called again after the caller overwrote the first result in place' % (fam, ns, params, i, fam, n))
         if i == spot:
-            _cmp(out2[i], np.asarray(_guard(ctx, scls, scalar, n, *params, x2)), ref, dtype, '%s_seq:second-call:%s' % (fam, ncls),
+            _cmp(out2[i], np.asarray(_guard(ctx, scls, scalar, n, *params, x2)), ref, dtype, '%s_seq:second-call:%s%s' % (fam, ncls, bsuf),
                  '%s_seq(%r, %r)[%d] vs %s(%d) on the second coordinate set' % (fam, ns, params, i, fam, n))
     _unchanged(ctx, x, x_before, '%s:argument-modified:x' % fam, 'the coordinate array (scalar-order function)')
 
@@ -424,8 +450,8 @@ def _pair_class(nms):
     return out
 
 
-def _polar_ref():
-    r, t = np.meshgrid(np.linspace(0.0, 1.0, 9), np.linspace(0.05, 2 * np.pi, 12))
+def _polar_ref(rmax=1.0):
+    r, t = np.meshgrid(np.linspace(0.0, rmax, 9), np.linspace(0.05, 2 * np.pi, 12))
     return r, t
 
 
@@ -490,7 +516,7 @@ def strat_zernike(tier):
     return st.sampled_from(FLOATS).flatmap(lambda dtype: st.fixed_dictionaries({
         'fn': st.sampled_from(['zernike_nm_seq', 'zernike_nm_der_seq']), 'nms': zernike_pairs(NMAX_SINGLE if dtype in SINGLE else N), 'norm': st.booleans(),
         'norm_kw': st.booleans(), 'shape': shape_spec(D), 'dtype': st.just(dtype), 'layout': U.layouts,
-        'pairs_as': st.sampled_from(PAIRS_AS), 'history': st.sampled_from(HISTORY2), 'seed': U.seeds}))
+        'pairs_as': st.sampled_from(PAIRS_AS), 'history': st.sampled_from(HISTORY2), 'seed': U.seeds, 'span': st.sampled_from(SPANS)}))
 
 
 def check_zernike(case, ctx):
@@ -503,17 +529,22 @@ def check_zernike(case, ctx):
     dtype = case['dtype']
     layout, pairs_as, history = case.get('layout', 'C'), case.get('pairs_as', 'tuples'), case.get('history', 'none')
 
+    span = case.get('span', 'domain')
+    rmax = RADIUS_BEYOND if span == 'beyond' else 1.0
+
     def make_coords(dt, salt):
-        return (present(coords(case['seed'], shape, 0.0, 1.0, dt, salt=1 + salt), layout, 'array'),
+        return (present(coords(case['seed'], shape, 0.0, rmax, dt, salt=1 + salt), layout, 'array'),
                 present(coords(case['seed'], shape, 0.0, 2 * np.pi, dt, salt=2 + salt), layout, 'array'))
     scls = _shape_class(shape, k)
     pcls = _pair_class(case['nms'])
-    ctx.nt('unsorted' in pcls or 'repeated|m|' in pcls or len(shape) != 1 or k in shape)
-    ctx.label(case['fn'], scls, 'norm=%s' % case['norm'], *pcls)
+    ctx.nt('unsorted' in pcls or 'repeated|m|' in pcls or len(shape) != 1 or k in shape or span != 'domain')
+    ctx.label(case['fn'], scls, 'norm=%s' % case['norm'], 'span:' + span, *pcls)
+    if span != 'domain':
+        scls += ':beyond-unit-disc'
     ctx.label('maxn>=30' if max(n for n, _ in nms) >= 30 else 'maxn<30')
     _two_index_labels(ctx, dtype, layout, pairs_as, history, shape)
     kw = {'norm': case['norm']} if (case['norm_kw'] or not case['norm']) else {}
-    rref, tref = _polar_ref()
+    rref, tref = _polar_ref(rmax)
     other = [(n + 2, m) for n, m in nms]
     spot = int(case['seed']) % k
     if case['fn'] == 'zernike_nm_seq':
@@ -555,7 +586,7 @@ def strat_q2d(tier):
     N, M = {'quick': (30, 16), 'thorough': (60, 30)}[tier]
     return st.sampled_from(FLOATS).flatmap(lambda dtype: st.fixed_dictionaries({
         'nms': q2d_pairs(14, 10) if dtype in SINGLE else q2d_pairs(N, M), 'shape': shape_spec(DMAX[tier]), 'dtype': st.just(dtype),
-        'layout': U.layouts, 'pairs_as': st.sampled_from(PAIRS_AS), 'history': st.sampled_from(HISTORY2), 'seed': U.seeds}))
+        'layout': U.layouts, 'pairs_as': st.sampled_from(PAIRS_AS), 'history': st.sampled_from(HISTORY2), 'seed': U.seeds, 'span': st.sampled_from(SPANS)}))
 
 
 def check_q2d(case, ctx):
@@ -568,22 +599,27 @@ def check_q2d(case, ctx):
     dtype = case['dtype']
     layout, pairs_as, history = case.get('layout', 'C'), case.get('pairs_as', 'tuples'), case.get('history', 'none')
 
+    span = case.get('span', 'domain')
+    rmax = RADIUS_BEYOND if span == 'beyond' else 1.0
+
     def make_coords(dt, salt):
-        return (present(coords(case['seed'], shape, 0.0, 1.0, dt, salt=1 + salt), layout, 'array'),
+        return (present(coords(case['seed'], shape, 0.0, rmax, dt, salt=1 + salt), layout, 'array'),
                 present(coords(case['seed'], shape, 0.0, 2 * np.pi, dt, salt=2 + salt), layout, 'array'))
     scls = _shape_class(shape, k)
     pcls = _pair_class(case['nms'])
     ms = [m for _, m in nms]
     content = ('m0' if 0 in ms else '') + ('cos' if any(m > 0 for m in ms) else '') + ('sin' if any(m < 0 for m in ms) else '')
-    ctx.nt('unsorted' in pcls or 'repeated|m|' in pcls or len(shape) != 1 or k in shape)
-    ctx.label(scls, 'content:' + content, *pcls)
+    ctx.nt('unsorted' in pcls or 'repeated|m|' in pcls or len(shape) != 1 or k in shape or span != 'domain')
+    ctx.label(scls, 'content:' + content, 'span:' + span, *pcls)
+    if span != 'domain':
+        scls += ':beyond-unit-disc'
     ctx.label('maxn>=15' if max(n for n, _ in nms) >= 15 else 'maxn<15')
     _two_index_labels(ctx, dtype, layout, pairs_as, history, shape)
     other = [(n + 1, -m) for n, m in nms]
     kept, (r, t), out3, (r2, t2), out2 = _two_index_protocol(
         ctx, 'Q2d_seq', scls, lambda pairs, c: _guard(ctx, scls, P.Q2d_seq, pairs, c[0], c[1]), nms, pairs_as, history, make_coords, dtype, other)
     U.check_shape(kept, (k,) + shape, 'Q2d_seq:' + scls, 'Q2d_seq of %d pairs on r.shape=%s' % (k, shape))
-    rref, tref = _polar_ref()
+    rref, tref = _polar_ref(rmax)
     spot = int(case['seed']) % k
     for i, (n, m) in enumerate(nms):
         want = np.asarray(_guard(ctx, scls, P.Q2d, n, m, r, t))
